@@ -47,6 +47,7 @@ type hScenario struct {
 	SkipAt     int    `json:"skip_at,omitempty"`      // >0: dcp.listener.skipUntil = event time of seqno SkipAt (earlier document events are dropped)
 	MetaBucket string `json:"meta_bucket,omitempty"`  // metadata.config.bucket (couchbase metadata placed in another bucket)
 	EndOnClose bool   `json:"end_on_close,omitempty"` // the server confirms every CloseStream with STREAM_END(closed), as a real node does
+	KeepF1     bool   `json:"keep_f1,omitempty"`      // do not exclude the known finding F1 by construction (units whose oracle is not C01's)
 	File       bool   `json:"file,omitempty"`         // real file metadata backend (whole-state writes) instead of the per-vBucket fake
 }
 
@@ -1557,7 +1558,7 @@ func (s *session) finish() {
 // runHistory interprets the scenario. Returns the first violation (or nil) and the labels.
 func runHistory(sc *hScenario, excludeF1 bool, oracles ...string) (*hViolation, map[string]bool, int) {
 	s := newSession(sc, oracles...)
-	s.excludeF1 = excludeF1
+	s.excludeF1 = excludeF1 && !sc.KeepF1
 	s.open()
 	for i, op := range sc.Ops {
 		s.step = i + 1
